@@ -272,6 +272,12 @@ Proof.
     + rewrite IH by assumption. destruct (strip_trailing_zero_masks ms); reflexivity.
 Qed.
 
+Lemma zeros_firstn n : forall l, zeros l -> zeros (firstn n l).
+Proof.
+  induction n as [|n IH]; intros l Z; [constructor|].
+  destruct l as [|a l]; [constructor|]. inversion Z; subst. constructor; auto. now apply IH.
+Qed.
+
 Lemma chmask_marshal_length m : length (chmask_marshal m) = 2%nat.
 Proof. reflexivity. Qed.
 
@@ -294,9 +300,42 @@ Proof.
   split; [exact L16|]. unfold cflist_unmarshal. rewrite L16. cbn [Nat.eqb negb].
   assert (L15 : length (body ++ repeat 0 (15 - length body)) = 15%nat) by (rewrite app_length, repeat_length; lia).
   rewrite app_nth2 by lia. rewrite L15. cbn [Nat.sub nth]. change (1 =? 1) with true. cbv iota.
-  rewrite <- L15 at 1. rewrite firstn_app, firstn_all, Nat.sub_diag. cbn [firstn]. rewrite app_nil_r.
-  unfold body. rewrite masks_from_strip; [|exact H|apply Forall_forall; intros x Hx; now apply repeat_spec in Hx].
+  rewrite <- L15 at 1. rewrite firstn_app, firstn_all, Nat.sub_diag, firstn_O, app_nil_r.
+  (* six masks, then RFU: the decoder looks at the first 12 bytes *)
+  rewrite firstn_app, (firstn_all2 body) by lia.
+  unfold body. rewrite masks_from_strip; [|exact H|apply zeros_firstn, Forall_forall; intros x Hx; now apply repeat_spec in Hx].
   destruct (strip_trailing_zero_masks ms); reflexivity.
+Qed.
+
+(* the three bytes after the six channel-masks are RFU: the decoded masks do not
+   depend on them (fix e2c2b92, finding C06-2), and there are at most six *)
+Lemma masks_from_count : forall n bs pending, (length bs <= n)%nat ->
+  (length (masks_from bs pending) <= length pending + length bs / 2)%nat.
+Proof.
+  induction n as [|n IH]; intros bs pending L.
+  - destruct bs; [cbn; lia|cbn in L; lia].
+  - destruct bs as [|a [|b r]]; [cbn; lia|cbn; lia|].
+    cbn [masks_from]. cbn [length] in L.
+    assert (D : (length (a :: b :: r) / 2 = S (length r / 2))%nat).
+    { cbn [length]. replace (S (S (length r))) with (1 * 2 + length r)%nat by lia.
+      rewrite Nat.div_add_l by lia. lia. }
+    rewrite D. destruct (all_false (val_bits 16 (a + 256 * b))).
+    + specialize (IH r (pending ++ [val_bits 16 (a + 256 * b)])). rewrite app_length in IH. cbn [length] in IH. lia.
+    + specialize (IH r []). rewrite !app_length. cbn [length] in *. lia.
+Qed.
+
+Theorem cflist_masks_rfu_ignored body (r1 r2 r3 r1' r2' r3' : Z) : length body = 12%nat ->
+  cflist_unmarshal (body ++ [r1; r2; r3; 1]) = cflist_unmarshal (body ++ [r1'; r2'; r3'; 1]) /\
+  exists ms, cflist_unmarshal (body ++ [r1; r2; r3; 1]) = Ok (CFMasks ms) /\ (length ms <= 6)%nat.
+Proof.
+  intros L.
+  assert (F : forall a b c, cflist_unmarshal (body ++ [a; b; c; 1]) = Ok (CFMasks (masks_from body []))).
+  { intros a b c. unfold cflist_unmarshal. rewrite app_length, L. cbn [length Nat.add Nat.eqb negb].
+    rewrite app_nth2 by lia. rewrite L. cbn [Nat.sub nth]. change (1 =? 1) with true. cbv iota.
+    rewrite firstn_firstn. cbn [Nat.min]. rewrite <- L at 1.
+    rewrite firstn_app, firstn_all, Nat.sub_diag, firstn_O, app_nil_r. reflexivity. }
+  split; [now rewrite !F|]. exists (masks_from body []). split; [apply F|].
+  pose proof (masks_from_count 12 body [] ltac:(lia)) as C. rewrite L in C. cbn in C. exact C.
 Qed.
 
 Lemma strip_id ms : ms <> [] -> all_false (last ms []) = false -> strip_trailing_zero_masks ms = ms.
